@@ -43,6 +43,7 @@ type SReader struct {
 	Req     int64
 	Reads   int
 	Seeks   int
+	Script  []int // sizes of the Read requests, in order (first 2048)
 }
 
 // NewSReader builds the reader an op describes.
@@ -79,9 +80,21 @@ func (r *SReader) Read(p []byte) (int, error) {
 	if n > avail {
 		n = avail
 	}
+	if len(r.Script) < 2048 {
+		r.Script = append(r.Script, len(p))
+	}
 	if len(r.chunks) > 0 {
 		c := int64(r.chunks[r.ci%len(r.chunks)])
 		r.ci++
+		// classes relative to the request: -1 short by one, -2 half, -3 one byte; positive = absolute size
+		switch c {
+		case -1:
+			c = int64(len(p)) - 1
+		case -2:
+			c = int64(len(p)) / 2
+		case -3:
+			c = 1
+		}
 		if c >= 1 && c < n {
 			n = c
 		}
